@@ -44,6 +44,35 @@ def scenarios(draw):
                                  src.choice(["shift", "faketerm", "skipmicro", "mmjunction"]))
                 if r is not None and R.cigar_blocks(r["p"], r["cg"])[-1][1] + 45 < lens[g["chr"]] and r["p"] > 5:
                     reads.append(r)
+    # isoforms with a short 3'-terminal exon that the reads fail to align (tail soft-clipped right after the
+    # preceding exon): exercises the mirrored polyA / polyT rescue paths
+    k = len(reads) + 1000
+    for g in sc["genes"]:
+        if not src.bool(0.35):
+            continue
+        cand = [t for t in g["transcripts"] if len(t["exons"]) >= 2]
+        if not cand:
+            continue
+        t = src.choice(cand)
+        orig = [list(e) for e in t["exons"]]
+        ln, gap = src.int(8, 38), src.int(150, 500)
+        if g["strand"] == "+":
+            new = orig + [[orig[-1][1] + gap + 1, orig[-1][1] + gap + ln]]
+            if new[-1][1] + 100 >= lens[g["chr"]]:
+                continue
+        else:
+            if orig[0][0] - gap - ln < 60:
+                continue
+            new = [[orig[0][0] - gap - ln, orig[0][0] - gap - 1]] + orig
+        if any(o is not g and o["chr"] == g["chr"] and
+               min(x["exons"][0][0] for x in o["transcripts"]) <= new[-1][1] + 50 and
+               max(x["exons"][-1][1] for x in o["transcripts"]) >= new[0][0] - 50 for o in sc["genes"]):
+            continue
+        t["exons"] = new
+        sc["overrides"] += build.splice_overrides(g["chr"], new, g["strand"])
+        for _ in range(src.int(2, 4)):
+            k += 1
+            reads.append(S.exact_read("q%d" % k, g["chr"], g["strand"], orig, polya=src.int(20, 32)))
     sc["reads"] = reads
     sc["opts"] = ["--data_type", src.choice(["nanopore", "pacbio_ccs"]), "--no_gzip", "--threads",
                   str(src.choice([1, 2]))]
